@@ -161,4 +161,6 @@ def generate(rng, tier, focus):
                 acts.append(["unsub", 1])
                 acts += [["emit", 0, n(rng.choice([1, 2, 3]))]]
         cases.append((scn(subjects=[["subject"]], conns=[[kind, ["hot", 0]]], handles=3, script_=acts), {"k": "dead-on-arrival"}))
+    import common
+    cases += common.conn_stress(rng, 2400 if thorough else 400)
     return cases
